@@ -27,9 +27,10 @@ extern('py_status_line', params={})
 def _fmt_status(st, recv, args, kw):
     """'{0!s} {1}'.format(status, reason): the decimal status, a space, the reason"""
     f = z3.Function('py_int_str', z3.IntSort(), z3.StringSort())
+    tmpl = z3.simplify(recv.z)
+    if not (z3.is_string_value(tmpl) and tmpl.as_string() == '{0!s} {1}' and len(args) == 2 and args[0].t.kind == 'int'):
+        return _GENERIC_FORMAT(st, recv, args, kw)      # any other template: an opaque string
     a, b = args
-    if a.t.kind != 'int':
-        raise Undecided('format() of %r' % (a.t,))
     s = f(a.z)
     # the first character of the decimal form of a three-digit status is its hundreds digit
     for d in range(1, 6):
@@ -38,6 +39,7 @@ def _fmt_status(st, recv, args, kw):
     return Val(T.STR, z3.Concat(s, z3.StringVal(' '), st.coerce(b, T.STR).z))
 
 
+_GENERIC_FORMAT = calls.METHOD_MODELS[('str', 'format')]
 calls.METHOD_MODELS[('str', 'format')] = _fmt_status
 
 contract('HttpRelayClient._process_response', module=M, props=['C11', 'C19'],
